@@ -649,6 +649,17 @@ func Start(t *Task) {
 // a crash of the task's incarnation) and the task simply ends.
 var PanicHook func(t *Task, r any) bool
 
+// DetWord returns a word from the run's application PRNG stream. It replaces
+// values that Pebble derives from object addresses (R13 of the rewriter).
+//
+//go:norace
+func DetWord() uint64 {
+	if S == nil {
+		return 0
+	}
+	return AppRng().Next()
+}
+
 // Exit ends a task. It must be deferred directly (`defer simrt.Exit(t)`) so
 // that it can recover a panic of the task body.
 func Exit(t *Task) {
